@@ -1,8 +1,32 @@
 """C08 — enumeration tables are total, unambiguous and parse to the unit meant."""
 from .. import facts, ev, affine
 from ..units_model import UnitModel, U
-from ..facts import short
+from ..facts import short, strip_cvref
 from ..frontend import NUMERIC
+
+
+def non_literal_texts(F, init):
+    """Descriptions of the text arguments of the table's pair constructors that are not string literals."""
+    from .. import cg
+    out = []
+
+    def strip(n):
+        while isinstance(n, dict) and (n.get("k") == "cast" or (n.get("k") == "ctor" and "basic_string_view" in (F.T(n.get("t", -1)) or "") and len(n.get("a", [])) == 1)
+                                       or (n.get("k") == "ilist" and len(n.get("e", [])) == 1)):
+            n = n.get("e") if n.get("k") == "cast" else (n["a"][0] if n.get("k") == "ctor" else n["e"][0])
+        return n
+
+    def visit(n):
+        if n.get("k") == "ctor" and strip_cvref(F.T(n.get("t", -1)) or "").startswith("std::pair<") and "basic_string_view" in (F.T(n["t"]) or ""):
+            for a in n.get("a", []):
+                b = strip(a)
+                t = strip_cvref(F.T(b.get("t", -1)) or "") if isinstance(b, dict) else ""
+                is_text = isinstance(b, dict) and (b.get("k") == "slit" or "basic_string" in t or t.startswith("const char") or t.startswith("char"))
+                if is_text and b.get("k") != "slit":
+                    g = F.fns.get(b.get("f", -1), {}) if isinstance(b, dict) else {}
+                    out.append("a call of %s" % g.get("name", "?")[:60] if b.get("k") == "call" else "a %s expression" % b.get("k"))
+    cg.walk(init, visit)
+    return out
 
 
 def run(chk):
@@ -14,6 +38,7 @@ def run(chk):
     chk.rule("R2", "abbreviations are distinct within a type; no spelling key occurs twice with different enumerators")
     chk.rule("R3", "Spellings<E>[Abbreviation(e)] = e for every enumerator")
     chk.rule("R4", "every spelling the unit grammar can read denotes the magnitude (and offset) of the enumerator it maps to")
+    chk.rule("R6", "every text stored in Abbreviations<E> / Spellings<E> (tables of std::string_view) is a string literal")
     chk.rule("R5", "operator<<(ostream, e) inserts exactly Abbreviation(e); ParseEnumeration is a checked find (nullopt when absent); Abbreviation reads Abbreviations<E>[e]")
     chk.assumptions += ["spellings containing an atom unknown to oracle/units.py are counted as undecided (never as violations); the decided fraction has a floor",
                         "std::map / std::unordered_map semantics: the first of several equal keys in an initializer_list wins"]
@@ -65,6 +90,17 @@ def run(chk):
         if srow is None:
             chk.violated("R3", se, "no Spellings table: nothing parses", eloc)
             continue
+        # R6: the string_view keys/values of the tables must refer to string literals (static storage)
+        for var_ in (avar, svar):
+            if var_ is None or var_.get("init") is None:
+                continue
+            bad = non_literal_texts(F, var_["init"])
+            if bad:
+                chk.violated("R6", "%s:%s" % (se, var_["name"].split("<")[0].split("::")[-1]),
+                             "%d row(s) take their text from %s instead of a string literal: the table stores std::string_view, so text "
+                             "computed into a std::string is gone when the initialiser finishes and the row can never be found" % (len(bad), bad[0]), short(var_["loc"]))
+            else:
+                chk.holds("R6", "%s:%s" % (se, var_["name"].split("<")[0].split("::")[-1]), "every text is a string literal", short(var_["loc"]), nontrivial=False)
         first = {}
         for k, v in srow:
             if not (isinstance(k, str) and isinstance(v, tuple)):
